@@ -12,6 +12,29 @@ TB = ("Trusted: Coq 8.16.1 kernel incl. vm_compute (no native_compute, no extrac
 
 # pid -> (claimed?, level text, technique, extra note / reason when not claimed)
 REG = {
+ 'C01': (True,
+   "Coq model of the BER encoder (all modes) and of the guided BER decoder (interaction-tree style), each compared with /repo by "
+   "differential execution inside Coq (vm_compute) on random (type, value, mode) cases, plus an implementation-level round-trip "
+   "search with shrinking; theorems: header octets invert for every tag/length (unbounded), staged content/round-trip lemmas "
+   "(see evidence 'theorems' for the stage reached).",
+   "Rocq/Coq proof over a Gallina model of the codec + vm_compute correspondence against /repo",
+   "Round trip is proved for the stage listed in the evidence; beyond it the property rests on the correspondence and the search. "
+   "Known findings F01 (pinned by a test) is reported as KNOWN-FINDING. Decimal REAL and non-ASCII UTF-8/16/32 validity are outside the model."),
+ 'C03': (True,
+   "An independent X.690 reference written in Coq from the standard (Spec/X690.v: DER/CER as functions, a BER TLV-tree reader) is "
+   "evaluated by vm_compute against the implementation's DER/CER bytes (byte identity) and BER/CER outputs (same abstract value); "
+   "theorems: the reference's identifier and length octets coincide with the model of pyasn1's encoder for every tag and length.",
+   "Rocq/Coq: independent executable X.690 specification evaluated in the kernel's VM + equivalence lemmas (induction on digit recursion)",
+   "The byte-identity theorem enc DER = X690.der over the whole universe is proved only for the header layer so far; the rest is decided "
+   "per input by evaluating the reference. Known findings F01, F24 (pinned), F35."),
+ 'C11': (True,
+   "Coq state-machine model of CachingStreamWrapper and of an abstract seekable stream; refinement theorem for every permitted "
+   "operation history (induction on the history) for the repaired wrapper and, excluding the F06 class, for the code as it is; "
+   "asSeekableStream normalisation; any client choosing its next call from the answers so far gets the same answers. Tied to /repo by "
+   "all histories of length <= 4, random histories and decoding the same bytes through 8 substrate kinds.",
+   "Rocq/Coq refinement proof (induction over operation histories) + vm_compute correspondence against /repo",
+   "F06 (position renumbering after a cache drop) is pinned by tests/codec/test_streaming.py::testMarkedPositionResets: known finding. "
+   "That the decoders are permitted clients and that file/gzip/zip readers behave as the abstract stream is observed, not proved."),
  'C13': (True,
    "Coq theorems over the tag/identifier/length model: identifier octets written by the encoder are read back by the decoder "
    "for every class, form and number (unbounded), long form is minimal, definite lengths of any size round-trip, implicit/explicit "
@@ -19,6 +42,26 @@ REG = {
    "inside Coq by vm_compute) and by an implementation-level accept/reject search.",
    "Rocq/Coq proof (induction over base-128/256 digit recursion) + vm_compute correspondence against /repo",
    "Spine/near-miss theorems over the full type universe are added with the codec model (see evidence 'theorems')."),
+ 'C14': (True,
+   "Inductive model of the 12 public constraint classes with a 3-valued evaluator following each _testValue, an independent "
+   "set-theoretic denotation, and proofs by nested structural induction that evaluation = denotation at any depth, derived types "
+   "admit subsets and are recognised (as repaired), and every value-producing scalar operation checks constraints. Tied to /repo by "
+   "random constraint trees with boundary candidates, derivation chains and dunder batteries.",
+   "Rocq/Coq proof (nested structural induction over constraint trees) + vm_compute correspondence against /repo",
+   "Known findings F14b, F14c, F13 (open). Float REAL arithmetic is outside the model."),
+ 'C19': (True,
+   "Coq models of SequenceOf/SetOf (sparse dict), Sequence/Set (slot list) and Choice objects as step functions, refinement to plain "
+   "list/dict/option specs by induction on the history with one lemma per operation; reads inert; ill-formed operations inert; CHOICE "
+   "holds at most one alternative (invariant). Tied to /repo by random histories compared after every step with the real objects and a Python prototype.",
+   "Rocq/Coq refinement proof (induction over operation histories) + vm_compute correspondence against /repo",
+   "Partial where the code violates the statement: known findings F18a, F18d (pinned), F18h, F18i with _refuted witnesses."),
+ 'C20': (True,
+   "Coq model of fromDateTime/asDateTime and of the CER/DER time canonicalisation as coded, an independent X.680 reader, and proofs "
+   "(unbounded in every field) that the round trip preserves instant and offset for every whole-minute offset, that non-UTC strings "
+   "are refused, and of canonical output outside the recorded finding classes. Tied to /repo by the full grid of the property and "
+   "X.680 grammar strings.",
+   "Rocq/Coq proof (case analysis + lia over unbounded date fields) + vm_compute correspondence against /repo",
+   "Known findings F12 (pinned), F27. strptime/strftime are modelled as field parsing/formatting."),
 }
 NOT_YET = "check not built yet in this session (build order in DESIGN.md section 9); no claim is made"
 
